@@ -127,10 +127,21 @@ pub fn is_parametrize_decorator(expr: &Expr) -> bool {
     is_pytest_mark_decorator(expr, "parametrize")
 }
 
-/// Extracts fixture names from @pytest.mark.parametrize when indirect=True.
+/// Extracts the fixture names a `@pytest.mark.parametrize(..., indirect=...)` mark requests.
+///
+/// Each entry is (name, range of the string literal the name is written in, byte offset of the
+/// name inside that literal's text when the literal lists several comma-separated names).
+/// `argnames` may be a comma-separated string, a tuple or a list of strings, positional or
+/// given by keyword; `indirect` may be `True`, a list or a tuple of names.
 pub fn extract_parametrize_indirect_fixtures(
     expr: &Expr,
-) -> Vec<(String, rustpython_parser::text_size::TextRange)> {
+) -> Vec<(
+    String,
+    rustpython_parser::text_size::TextRange,
+    Option<usize>,
+)> {
+    use rustpython_parser::ast::Constant;
+
     let Expr::Call(call) = expr else {
         return vec![];
     };
@@ -138,61 +149,84 @@ pub fn extract_parametrize_indirect_fixtures(
         return vec![];
     }
 
-    let indirect_value = call.keywords.iter().find_map(|kw| {
-        if kw.arg.as_ref().is_some_and(|a| a.as_str() == "indirect") {
-            Some(&kw.value)
-        } else {
-            None
-        }
-    });
+    let keyword = |name: &str| {
+        call.keywords.iter().find_map(|kw| {
+            kw.arg
+                .as_ref()
+                .is_some_and(|a| a.as_str() == name)
+                .then_some(&kw.value)
+        })
+    };
 
-    let Some(indirect) = indirect_value else {
+    let Some(indirect) = keyword("indirect") else {
+        return vec![];
+    };
+    let Some(argnames) = call.args.first().or_else(|| keyword("argnames")) else {
         return vec![];
     };
 
-    let Some(first_arg) = call.args.first() else {
-        return vec![];
-    };
+    let string_elements =
+        |elts: &[Expr]| -> Vec<(String, rustpython_parser::text_size::TextRange)> {
+            elts.iter()
+                .filter_map(|elt| match elt {
+                    Expr::Constant(c) => match &c.value {
+                        Constant::Str(s) if !s.trim().is_empty() => {
+                            Some((s.trim().to_string(), c.range))
+                        }
+                        _ => None,
+                    },
+                    _ => None,
+                })
+                .collect()
+        };
 
-    let Expr::Constant(param_const) = first_arg else {
-        return vec![];
-    };
-
-    let rustpython_parser::ast::Constant::Str(param_str) = &param_const.value else {
-        return vec![];
-    };
-
-    let param_names: Vec<&str> = param_str.split(',').map(|s| s.trim()).collect();
-
-    match indirect {
+    // As pytest does: split on commas, strip, drop empty pieces ("a, b," names a and b)
+    let mut params: Vec<(
+        String,
+        rustpython_parser::text_size::TextRange,
+        Option<usize>,
+    )> = Vec::new();
+    match argnames {
         Expr::Constant(c) => {
-            if matches!(c.value, rustpython_parser::ast::Constant::Bool(true)) {
-                return param_names
-                    .into_iter()
-                    .map(|name| (name.to_string(), param_const.range))
-                    .collect();
+            let Constant::Str(names) = &c.value else {
+                return vec![];
+            };
+            let mut offset = 0;
+            for piece in names.split(',') {
+                let name = piece.trim();
+                if !name.is_empty() {
+                    let leading = piece.len() - piece.trim_start().len();
+                    params.push((name.to_string(), c.range, Some(offset + leading)));
+                }
+                offset += piece.len() + 1;
             }
         }
-        Expr::List(list) => {
-            return list
-                .elts
-                .iter()
-                .filter_map(|elt| {
-                    if let Expr::Constant(c) = elt {
-                        if let rustpython_parser::ast::Constant::Str(s) = &c.value {
-                            if param_names.contains(&s.as_str()) {
-                                return Some((s.to_string(), c.range));
-                            }
-                        }
-                    }
-                    None
-                })
-                .collect();
-        }
-        _ => {}
+        Expr::Tuple(t) => params.extend(
+            string_elements(&t.elts)
+                .into_iter()
+                .map(|(n, r)| (n, r, None)),
+        ),
+        Expr::List(l) => params.extend(
+            string_elements(&l.elts)
+                .into_iter()
+                .map(|(n, r)| (n, r, None)),
+        ),
+        _ => return vec![],
     }
 
-    vec![]
+    let listed = |elts: &[Expr]| {
+        string_elements(elts)
+            .into_iter()
+            .filter(|(name, _)| params.iter().any(|(p, _, _)| p == name))
+            .map(|(name, range)| (name, range, None))
+            .collect()
+    };
+    match indirect {
+        Expr::Constant(c) if matches!(c.value, Constant::Bool(true)) => params,
+        Expr::List(list) => listed(&list.elts),
+        Expr::Tuple(tuple) => listed(&tuple.elts),
+        _ => vec![],
+    }
 }
 
 /// Extracts whether autouse=True is set on a @pytest.fixture decorator.
